@@ -269,9 +269,8 @@ def repairs (p : Program) : List (String × Cfg) :=
   [ ("lit-lowering", { litSmallest := true }),
     ("coerce-write", { coerce := some p.ctx }),
     ("lit-lowering+coerce-write", { litSmallest := true, coerce := some p.ctx }),
-    ("return-in-program", { returnOk := true }),
     ("for-ulint-cast", { forExact := true }),
-    ("all", { litSmallest := true, coerce := some p.ctx, returnOk := true, forExact := true }) ]
+    ("all", { litSmallest := true, coerce := some p.ctx, forExact := true }) ]
 
 def c02Oracle (p : Program) (steps : List Step) (impl : List ImplCycle) (isStrict : Bool) : String :=
   let spec := runSpec p steps
@@ -303,8 +302,7 @@ def oraclePassX (c : Case) (p : XProgram) : String :=
   if c.bad then s!"o {c.n} bad-op" else
   let steps := c.steps.reverse
   let acc := c.verdict == some "accept"
-  let hole := p.accepted && !p.acceptedFixed
-  let pre := if hole then "case-else-hole:" else ""
+  let pre := ""
   let head := s!"o {c.n} acc={if acc then 1 else 0} strict=0 spec=0"
   if c.verdict == some "panic" then s!"{head} c01=compile-panic c02=na c03=ok" else
   if !acc then s!"{head} c01=ok c02=na c03=ok" else
@@ -344,8 +342,7 @@ def oraclePass (c : Case) : String :=
     let acc := c.verdict == some "accept"
     let isStrict := Strict p
     let isSpec := Spec.typed p
-    let hole := p.accepted && !p.acceptedFixed
-    let pre := if hole then "case-else-hole:" else if isStrict then "strict:" else ""
+    let pre := if isStrict then "strict:" else ""
     let head := s!"o {c.n} acc={if acc then 1 else 0} strict={if isStrict then 1 else 0} spec={if isSpec then 1 else 0}"
     if c.verdict == some "panic" then s!"{head} c01=compile-panic c02=na c03=ok" else
     if !acc then
